@@ -38,23 +38,21 @@ PROPS = {
                  "Shape: write discipline Reach (dirty mark before data, drop only if another DB is dirty or nothing remains, clean marks of one "
                  "fresh id in a row) + invariant 'all marks clean with one id => contents = snapshot' (reach_consistent), both producers obey "
                  "the discipline for all map-order oracles (pool_reach, flagged_reach), Reach is prefix closed. Negative witnesses (decide): the "
-                 "two pre-fix orderings of D7 and the residual all-dropped case of the repaired pool. Prefix bytes, mark layout, all "
+                 "two pre-fix orderings of D7 and the residual all-dropped case of the intermediate repair (6f78193 without 3bb25a4). Prefix bytes, mark layout, all "
                  "CheckDBsSynced conditions and the flagged-store dirty test are regenerated from the sources. "
                  "Correspondence (judge): real SyncedPool/flaggedproducer over a journaling memory backend; model journal = real journal op "
                  "by op (oracles read off the real journal and checked to be permutations); for EVERY prefix the real Initialize over the "
                  "rebuilt DBs is compared with the model and P_C25 is evaluated on the real answer.",
         "note": "Trusted: Lean kernel; go/ast extractor; harness + judge driver (its executable P_C25 over the finite names/keys of a case is "
                 "not proved equal to the Prop). Hypotheses of the theorem: pairwise distinct flush ids; oracles are enumerations of the Go maps; "
-                "user keys differ from the flush-id key; every existing DB was opened through the producer; pool: no flush drops >= 2 existing "
-                "DBs while no wrapper remains (FlushValid, last clause) - without it the property is FALSE for the repaired code "
-                "(pool_all_dropped_violates; replay: put a, put b, flush 01, drop a, drop b, flush 02), reported as defect candidate and "
-                "excluded from the generator. 'Flush completed' is defined intrinsically (the clean mark that makes every DB clean); the driver "
+                "user keys differ from the flush-id key; every existing DB was opened through the producer. The residual hole of the first "
+                "repair (a flush dropping >= 2 existing DBs while no wrapper remains wrote no dirty mark; fixed by 3bb25a4) is kept as the "
+                "negative witness pool_all_dropped_violates and is generated by the stream. 'Flush completed' is defined intrinsically (the clean mark that makes every DB clean); the driver "
                 "additionally demands that this point is the end of a Flush call. Durable ops include DB creation (more crash points than the "
                 "property lists). Batches larger than IdealBatchSize are not generated (single batch per flushable).",
         "trusted": ["go/cmd/extract (DirtyPrefix, CleanPrefix, MarkFlushID value, CheckDBsSynced conditions x5, flaggedStore.modified test and mark)",
                     "harness stream crash (journaling in-memory kvdb.Store/DBProducer) + judge driver"],
         "assumptions": ["pairwise distinct flush ids", "user keys != flush-id key", "all existing DBs opened through the producer",
-                        "pool: a flush never drops two or more existing DBs when no wrapper remains (defect candidate otherwise)",
                         "disk/fs behaviour of real backends = their logical durable-operation order"],
     },
 }
